@@ -4,11 +4,10 @@
    whose active word has tag p (act Register = the critical section of the primitive's internal
    lock); wake u = Some p when a waker popped that entry (sub-step SIssue, under the same lock) —
    "the wake-up was issued after the task registered"; both are reset when a new phase starts.
-   NOT proved (see notes/design/C02.md): agent_refines (simulation of Base/Agent.v), helper_abort_sound
-   as a separate statement (its content is inside the invariant behind C02_no_lost_wakeup). *)
+   NOT proved (see notes/design/C02.md): agent_refines (simulation of Base/Agent.v; false as stated). *)
 From Coq Require Import List NArith.
 From Pika Require Import Base.Conc Gen.GenEnums Model.Sched Proofs.SchedProofs Proofs.SchedWakeProofs
-  Proofs.SchedRecycleProofs.
+  Proofs.SchedRecycleProofs Proofs.SchedDeltaProofs Proofs.SchedAbortProofs Proofs.SchedAcceptProofs.
 Import ListNotations.
 
 (* reachable /\ stuck (nothing can move any more; the pool has at least one worker) => no task is
@@ -61,7 +60,69 @@ Theorem C02_wakeup_crosses_phases_refuted :
 Proof. exact wakeup_crosses_phases_refuted. Qed.
 Print Assumptions C02_wakeup_crosses_phases_refuted.
 
+(* helper_abort_sound.  In every reachable configuration: if the next step of thread a is the
+   abort branch of set_active_state for (u, prev) — a runs helper task t whose body is still
+   HelperBody u prev and the abort test `state equal /\ word different` succeeds on u's word — then
+   (1) u is the SAME incarnation the wake-up was aimed at: the helper's counted reference keeps
+       the count >= 1 and the object out of terminated_items / the heaps, and the ghost event
+       EvHelp (gid u) prev (logged when set_thread_state found u active with word prev and created
+       the helper) is in the log under u's CURRENT incarnation number;
+   (2) prev and the current word are both `active` and tag cur > tag prev: u has entered a new
+       activation after the wake-up was issued;
+   (3) the phase with word prev has ended by a store that is in the log of this incarnation, and
+       if that store published `suspended`, the suspension has already been ended by a
+       set_thread_state CAS (SiteSet) in the log: the wake-up that the abort drops was absorbed;
+   (4) no wake-up obligation of u for phase (tag prev) is outstanding; whatever obligation is
+       outstanding belongs to a later phase (and is carried by the invariant W1 behind
+       C02_no_lost_wakeup in the successor state).  Aborting never turns an owed wake-up into a
+       lost one. *)
+Theorem C02_helper_abort_sound : forall sched ext a t orig u prev,
+  let c := sched_run sched ext in
+  let g := fst c in
+  snd c a = WRun t orig SNone -> todo (tasks g t) = HelperBody u prev ->
+  st (tw_of g u) = st prev -> tw_of g u <> prev ->
+  (u < ntasks g /\ 1 <= rc g u /\ ~ In u (term g ++ heap g) /\ In (EvHelp (gid g u) prev) (log g)) /\
+  (st prev = st_active /\ st (tw_of g u) = st_active /\ (tag prev < tag (tw_of g u))%N) /\
+  (exists nw, In (EvWord (gid g u) SiteStore prev nw) (log g) /\
+              (st nw = st_suspended -> In (EvWord (gid g u) SiteSet nw (w_pending nw)) (log g))) /\
+  (~ needs_wake g u (tag prev) /\ forall p, needs_wake g u p -> (tag prev < p)%N).
+Proof. exact helper_abort_sound. Qed.
+Print Assumptions C02_helper_abort_sound.
+
+(* the same for every abort the log has ever recorded (what the harness sees as hook 207):
+   abort_sound lg i prev cur = both words active, tag prev < tag cur, EvHelp i prev in lg, the store
+   out of prev in lg, and the SiteSet CAS out of the stored word if that was `suspended` *)
+Theorem C02_helper_abort_log_sound : forall sched ext h i prev cur,
+  let lg := log (fst (sched_run sched ext)) in
+  In (EvAbort h i prev cur) lg -> abort_sound lg i prev cur.
+Proof. exact helper_abort_log_sound. Qed.
+Print Assumptions C02_helper_abort_log_sound.
+
+(* acceptor completeness for the C02 vocabulary: chains including the set_thread_state
+   transitions (SiteSet = hook 104) are accepted with matching activation counts, every push is
+   logged with a pending word (hook 120, `push_ok`), every abort record (hook 207) has equal
+   states and different tags (an abort record with equal tags is what the harness counts as
+   unmodelled) *)
+Theorem C02_accepts_complete : forall sched ext,
+  let lg := log (fst (sched_run sched ext)) in
+  (forall i, accepts (chain_of i lg) = true /\ activations (chain_of i lg) = enters_of i lg) /\
+  (forall i w, In (EvPush i w) lg -> push_ok w = true) /\
+  (forall h i prev cur, In (EvAbort h i prev cur) lg ->
+     st cur = st prev /\ N.eqb (tag prev) (tag cur) = false /\ (tag prev < tag cur)%N).
+Proof. exact accepts_complete_c02. Qed.
+Print Assumptions C02_accepts_complete.
+
 (* ------------------------------------------------------------------ non-vacuity *)
+(* the hypotheses of C02_helper_abort_sound are satisfiable: T = [Yield] is resumed while
+   (active,1), yields, is entered again (active,3); then the helper runs: thread 2 is about to
+   abort; after its step the abort is in the log *)
+Example C02_example_abort :
+  let c := sched_run ab_sched ab_ext in
+  snd c 2 = WRun 1 (wA 1) SNone /\ todo (tasks (fst c) 1) = HelperBody 0 (wA 1) /\
+  tw_of (fst c) 0 = wA 3 /\
+  In (EvAbort 1 0 (wA 1) (wA 3)) (log (fst (sched_run (ab_sched ++ [(2, oP)]) ab_ext))).
+Proof. vm_compute. repeat split. now left. Qed.
+
 (* the premise of C02_no_lost_wakeup is met on the way: the wake-up is issued while the registered
    waiter is still active, it then suspends with the wake-up pending ... *)
 Example C02_example_window :
